@@ -19,7 +19,8 @@ import rustlex as rl
 REPO = os.environ.get('VERIF_REPO', '/repo')
 VERIF = os.path.dirname(os.path.dirname(os.path.abspath(__file__)))
 
-LABEL_RE = re.compile(r'\[((?:C\d\d|[a-z]+)\.[A-Za-z0-9_.\-]+)\]')
+# [Cxx.name] or [Cxx.name|Cyy|Czz]: the obligation also counts for properties Cyy, Czz
+LABEL_RE = re.compile(r'\[((?:C\d\d|[a-z]+)\.[A-Za-z0-9_.\-]+)((?:\|C\d\d)*)\]')
 
 
 class SpecError(Exception):
@@ -113,9 +114,10 @@ def parse_vspec(path):
                 else:
                     raise SpecError(f'{path}:{i+1}: bad token {rest[k]}')
             u.parts.append(('item', it)); cur_item = it; i += 1
-        elif d in ('@sig', '@loop', '@loopend', '@before', '@after', '@closure', '@ret', '@tail', '@head', '@drop', '@split_or_arm', '@idiom'):
+        elif d in ('@sig', '@loop', '@loopend', '@before', '@after', '@closure', '@closure?', '@ret', '@tail', '@head', '@drop', '@split_or_arm', '@idiom', '@dropstmt'):
             if cur_item is None: raise SpecError(f'{path}:{i+1}: {d} outside @item')
-            a = Ann(kind=d[1:], line=i + 1)
+            a = Ann(kind=d[1:].rstrip('?'), line=i + 1)
+            if d.endswith('?'): a.opts['optional'] = '1'   # anchor may be absent (code before/after a fix)
             rest = ln[len(d):].strip()
             if d == '@ret':
                 a.arg = rest; i += 1
@@ -125,18 +127,22 @@ def parse_vspec(path):
                 for p in ps[1:]:
                     kk, vv = p.split('='); a.opts[kk] = vv
                 a.text, i = take_block(i + 1)
-            elif d in ('@before', '@after', '@drop', '@split_or_arm'):
+            elif d in ('@before', '@after', '@drop', '@dropstmt', '@split_or_arm'):
                 m = re.match(r'<<(.*)>>\s*$', rest)
                 if not m: raise SpecError(f'{path}:{i+1}: {d} needs <<anchor>>')
                 a.arg = m.group(1)
-                if d in ('@drop', '@split_or_arm'):
+                if d in ('@drop', '@dropstmt', '@split_or_arm'):
                     i += 1
                 else:
                     a.text, i = take_block(i + 1)
-            elif d in ('@closure', '@idiom'):
-                m = re.match(r'<<(.*?)>>\s*=>\s*<<(.*)>>\s*$', rest)
-                if not m: raise SpecError(f'{path}:{i+1}: {d} needs <<old>> => <<new>>')
-                a.arg, a.arg2 = m.group(1), m.group(2); i += 1
+            elif d in ('@closure', '@closure?', '@idiom'):
+                # optional third part `<<let PAT = p;>>` (or `bind <<let PAT = p;>>`) = destructuring of the renamed closure
+                # parameter, inserted as the first statement of the closure body (Verus: closure params must be plain variables)
+                m = re.match(r'<<(.*?)>>\s*=>\s*<<(.*?)>>(?:\s*(?:bind\s*)?<<(.*?)>>)?(?:\s+nth=(\d+))?\s*$', rest)
+                if not m: raise SpecError(f'{path}:{i+1}: {d} needs <<old>> => <<new>> [<<let PAT = p;>>] [nth=N]')
+                a.arg, a.arg2 = m.group(1), m.group(2); a.text = m.group(3) or ''
+                if m.group(4): a.opts['nth'] = m.group(4)   # N-th textual occurrence of the header in the body
+                i += 1
             else:
                 a.text, i = take_block(i + 1)
             cur_item.anns.append(a)
@@ -297,9 +303,26 @@ def strip_common(tx: Text, keep_derive=True, extra_keep=(), drop_derive=()):
                 tx.edit(t.start, ct[close].end, '', 'R2', 'attribute dropped')
             i = close + 1; continue
         i += 1
+    # R4 also inside bodies: a statement-level `use a::b::C;` is not extracted (the name resolves to the prelude stub)
+    for i, t in enumerate(ct):
+        if (t.kind == 'id' and t.text == 'use' and i > 0 and ct[i - 1].text in ('{', ';', '}')
+                and i + 1 < len(ct) and ct[i + 1].text in ('std', 'core', 'alloc')):
+            # only std paths: other function-local imports (e.g. `use mpsc::error::TrySendError::*`) must resolve
+            # against the prelude's stub modules and are kept
+            j = i
+            while j < len(ct) and ct[j].text != ';':
+                j += 1
+            if j < len(ct):
+                tx.edit(t.start, ct[j].end, '', 'R4', 'function-local use not extracted')
     for t in tx.toks:
         if t.kind == 'lcomment' and (t.text.startswith('///') or t.text.startswith('//!')):
             tx.edits.append((t.start, t.end, ''))
+    # R14: `_ = EXPR;` (destructuring assignment to the wildcard, not accepted by Verus) ==> `let _ = EXPR;`
+    # Same semantics: EXPR is evaluated and its value dropped at the end of the statement.
+    for i in range(1, len(ct) - 2):
+        if (ct[i].kind == 'id' and ct[i].text == '_' and ct[i - 1].kind == 'punct' and ct[i - 1].text in (';', '{', '}')
+                and ct[i + 1].kind == 'punct' and ct[i + 1].text == '=' and ct[i + 2].text not in ('=', '>')):
+            tx.edit(ct[i].start, ct[i].end, 'let _', 'R14', '`_ = E;` rewritten to `let _ = E;`')
     # tracing statements:  tracing::xxx!( ... );
     i = 0
     while i + 4 < len(ct):
@@ -452,7 +475,8 @@ def label_lines(text, labels, base_line, region):
         if m:
             cur = m.group(1)
             ln = ln[:m.start()] + '/*' + cur + '*/' + ln[m.end():]
-            labels.append({'label': cur, 'line0': base_line + off, 'line1': base_line + off, 'region': region})
+            labels.append({'label': cur, 'line0': base_line + off, 'line1': base_line + off, 'region': region,
+                           'also': [x for x in m.group(2).split('|') if x]})
         elif cur is not None and ln.strip() and not re.match(r'^\s*(requires|ensures|invariant|invariant_except_break|decreases|recommends|\{|\}|proof\b)', ln):
             labels[-1]['line1'] = base_line + off
         else:
@@ -517,7 +541,10 @@ class Gen:
         item, imp, src = find_item(it.file, it.kind, it.sel)
         tx = Text(src, item.start, item.end, it.file)
         strip_common(tx, extra_keep=tuple(it.opts.get('keep', '').split(',')), drop_derive=tuple(it.opts.get('noderive', '').split(',')))
-        apply_renames(tx, u.renames)
+        # per-item renames: `ren=Old:New[,Old2:New2]` on the @item line (R7; for names that mean different
+        # things in different source files, e.g. rt::Config vs config::Config both written `Config`)
+        item_ren = [tuple(x.split(':', 1)) for x in it.opts.get('ren', '').split(',') if ':' in x]
+        apply_renames(tx, u.renames + item_ren)
         l0, l1 = rl.line_of(src, item.decl_start), rl.line_of(src, item.end)
         sha = hashlib.sha256(src[item.start:item.end].encode()).hexdigest()[:16]
         name = it.as_name or item.name
@@ -695,16 +722,35 @@ class Gen:
                 body_s, body_e = ct[fp['bopen']].end, ct[fp['bclose']].start
                 body = src[body_s:body_e]
                 cnt = body.count(a.arg)
-                if cnt != 1:
+                if cnt == 0 and a.opts.get('optional'):
+                    continue
+                nth = int(a.opts.get('nth', '0'))
+                if (nth == 0 and cnt != 1) or nth > cnt:
                     raise SpecError(f'LOST-ANCHOR: {region}: closure header <<{a.arg}>> occurs {cnt} times')
                 if not re.match(r'^(move\s+)?\|[^|]*\|$', a.arg.strip()) or not re.match(r'^(move\s+)?\|', a.arg2.strip()):
                     raise SpecError(f'{region}: @closure must rewrite a closure header only')
-                pos = body_s + body.index(a.arg)
+                if a.text and not re.match(r'^let [^;]*;$', a.text.strip()):
+                    raise SpecError(f'{region}: @closure third part must be a single `let PAT = x;`')
+                off = -1
+                for _ in range(max(nth, 1)):
+                    off = body.index(a.arg, off + 1)
+                pos = body_s + off
                 tx.edit(pos, pos + len(a.arg), a.arg2, 'R3', 'closure header annotated')
-                for (bp, btxt) in closure_braces(tx, pos + len(a.arg)):
+                cb = closure_braces(tx, pos + len(a.arg))
+                if a.text:
+                    # R15: closure parameter pattern moved into the body
+                    if cb:
+                        cb[0] = (cb[0][0], '{ ' + a.text.strip() + ' ')
+                    else:
+                        kb = next(i_ for i_, t_ in enumerate(ct) if t_.start >= pos + len(a.arg))
+                        cb = [(ct[kb].end, ' ' + a.text.strip() + ' ')]
+                    tx.log.append({'rule': 'R15', 'at': f'{it.file}:{rl.line_of(src, pos)}', 'text': a.arg, 'note': f'closure parameter pattern moved into `{a.text.strip()}`'})
+                for (bp, btxt) in cb:
                     pending_inserts.append((bp, btxt, 'closure-brace'))
             elif a.kind == 'drop':
                 self.apply_drop(tx, a, fp['bopen'], fp['bclose'])
+            elif a.kind == 'dropstmt':
+                self.apply_dropstmt(tx, a, region)
             elif a.kind == 'idiom':
                 self.apply_idiom(tx, a, region)
             elif a.kind == 'split_or_arm':
@@ -872,6 +918,33 @@ class Gen:
         repl = '\n'.join(f'{alt} {guard} => {body}' for alt in alts)
         tx.edit(ct[a0].start, ct[end_idx].end, repl, 'R9', 'or-pattern with guard split into one arm per alternative')
 
+    def apply_dropstmt(self, tx, a, region):
+        """@dropstmt <<anchor>>: delete the whole (possibly multi-line) statement that starts at the unique
+        anchor text, up to and including its terminating `;` at bracket depth 0.  Logged as R2y.  Meant for
+        async tokio glue Verus cannot parse (`rt.block_on(async { .. })`); unlike @drop the statement is NOT
+        claimed to be effect-free: the unit must say which assumed contract stands in for its effect."""
+        s_all = tx.src[tx.start:tx.end]
+        cnt = s_all.count(a.arg)
+        if cnt != 1:
+            raise SpecError(f'LOST-ANCHOR: {region}: @dropstmt anchor <<{a.arg}>> occurs {cnt} times')
+        pos = tx.start + s_all.index(a.arg)
+        ct = tx.ct
+        k = next(i for i, t in enumerate(ct) if t.start >= pos)
+        if ct[k].start != pos:
+            raise SpecError(f'LOST-ANCHOR: {region}: @dropstmt anchor does not start at a token')
+        if ct[k - 1].text not in (';', '{', '}'):
+            raise SpecError(f'LOST-ANCHOR: {region}: @dropstmt anchor is not at the start of a statement')
+        j = k
+        while True:
+            if ct[j].kind == 'punct' and ct[j].text in rl.OPEN:
+                j = rl.match_close(ct, j)
+            elif ct[j].kind == 'punct' and ct[j].text == ';':
+                break
+            elif ct[j].kind == 'punct' and ct[j].text in rl.CLOSE:
+                raise SpecError(f'LOST-ANCHOR: {region}: @dropstmt: no terminating `;`')
+            j += 1
+        tx.edit(ct[k].start, ct[j].end, '', 'R2y', 'declared statement drop (async glue; effect covered by an assumed contract)')
+
     def apply_idiom(self, tx, a, region):
         """R11: replace one std iterator idiom that Verus cannot ingest (e.g. `.drain(..).collect::<Vec<T>>()`) by a call
         of a prelude contract function whose name starts with `idiom_`.  The anchor is matched modulo whitespace.  This is an
@@ -915,15 +988,35 @@ class Gen:
                     else: ok = False; break
             if ok and ct[k].text == '(' and ct[k + 1].text == '|':
                 found.append(k)
-        if len(found) < nth:
-            raise SpecError(f'LOST-ANCHOR: {it.file}: {it.sel}: {call}(|..| ..) #{nth} not found')
-        k = found[nth - 1]
-        close = rl.match_close(ct, k)
-        # closure params: | ... |
-        j = k + 2
-        while ct[j].text != '|': j += 1
-        cparam = src[ct[k + 2].start:ct[j].start].strip()
-        body_s, body_e = ct[j].end, ct[close].start
+        if it.opts.get('block'):
+            # R5b: lift the innermost `{ ... }` block of the fn body that contains the anchor text
+            # (block=<anchor>, `~` = space).  The block is taken verbatim; its free variables become
+            # the declared params.  Used for statement blocks that are not closures.
+            anchor = it.opts['block'].replace('~', ' ')
+            s_all = src[item.start:item.end]
+            if s_all.count(anchor) != 1:
+                raise SpecError(f'LOST-ANCHOR: {it.file}: {it.sel}: block anchor <<{anchor}>> occurs {s_all.count(anchor)} times')
+            apos = item.start + s_all.index(anchor)
+            k = None
+            for i in range(len(ct)):
+                if ct[i].kind == 'punct' and ct[i].text == '{' and ct[i].start < apos and ct[rl.match_close(ct, i)].start >= apos + len(anchor):
+                    k = i
+            if k is None:
+                raise SpecError(f'LOST-ANCHOR: {it.file}: {it.sel}: no block around <<{anchor}>>')
+            close = rl.match_close(ct, k)
+            cparam = ''
+            call = 'block'
+            body_s, body_e = ct[k].start, ct[close].end
+        else:
+            if len(found) < nth:
+                raise SpecError(f'LOST-ANCHOR: {it.file}: {it.sel}: {call}(|..| ..) #{nth} not found')
+            k = found[nth - 1]
+            close = rl.match_close(ct, k)
+            # closure params: | ... |
+            j = k + 2
+            while ct[j].text != '|': j += 1
+            cparam = src[ct[k + 2].start:ct[j].start].strip()
+            body_s, body_e = ct[j].end, ct[close].start
         body = src[body_s:body_e].strip()
         if not body.startswith('{'):
             body = '{ ' + body + ' }'
@@ -989,9 +1082,15 @@ class Gen:
             elif a.kind == 'closure':
                 bs, be = sct[fp['bopen']].end, sct[fp['bclose']].start
                 b = synthetic[bs:be]
-                if b.count(a.arg) != 1:
+                nth = int(a.opts.get('nth', '0'))
+                if b.count(a.arg) == 0 and a.opts.get('optional'):
+                    continue
+                if (nth == 0 and b.count(a.arg) != 1) or nth > b.count(a.arg):
                     raise SpecError(f'LOST-ANCHOR: {region}: closure header <<{a.arg}>> occurs {b.count(a.arg)} times')
-                pos = bs + b.index(a.arg)
+                off = -1
+                for _ in range(max(nth, 1)):
+                    off = b.index(a.arg, off + 1)
+                pos = bs + off
                 sub.edits.append((pos, pos + len(a.arg), a.arg2))
                 for (bp, btxt) in closure_braces(sub, pos + len(a.arg)):
                     inserts.append((bp, btxt))
@@ -1007,7 +1106,10 @@ class Gen:
         for n_, (pos, text) in enumerate(inserts):
             sub.edits.append((pos, pos, MARK % n_))
         rendered = sub.render().strip('\n') + '\n'
-        self.emit(f'// @src {it.file}:{l0}-{l1} sha256={sha} lifted closure #{nth} of {it.sel} ({call}(|{cparam}| ..)) [R5]\n')
+        if it.opts.get('block'):
+            self.emit(f'// @src {it.file}:{l0}-{l1} sha256={sha} lifted statement block of {it.sel} [R5b]\n')
+        else:
+            self.emit(f'// @src {it.file}:{l0}-{l1} sha256={sha} lifted closure #{nth} of {it.sel} ({call}(|{cparam}| ..)) [R5]\n')
         base = self.nline
         pieces = re.split(r'\x00(\d+)\x00', rendered)
         cur_line = base
@@ -1023,7 +1125,7 @@ class Gen:
         self.regions.append({'name': region, 'line0': base, 'line1': self.nline - 1, 'kind': 'fn',
                              'props': it.props, 'src': f'{it.file}:{l0}-{l1}', 'sha': sha, 'fn': name})
         self.sources.append({'fn': name, 'src': f'{it.file}:{l0}-{l1}', 'sha256': sha})
-        self.dropped.append({'rule': 'R5', 'at': f'{it.file}:{l0}', 'text': f'{call}(|{cparam}| ..)', 'note': f'closure body lifted to fn {name}({params})'})
+        self.dropped.append({'rule': 'R5b' if it.opts.get('block') else 'R5', 'at': f'{it.file}:{l0}', 'text': f'{call}(|{cparam}| ..)', 'note': f'{"statement block" if it.opts.get("block") else "closure body"} lifted to fn {name}({params})'})
         self.dropped += sub.log
 
     def build(self):
@@ -1043,6 +1145,8 @@ class Gen:
         # assert!(a == b) / assert!(a != b) (same condition, message dropped).
         self.emit('macro_rules! assert_ne { ($a:expr, $b:expr $(,)?) => { assert!($a != $b) }; ($a:expr, $b:expr, $($t:tt)+) => { assert!($a != $b) }; }\n')
         self.emit('macro_rules! assert_eq { ($a:expr, $b:expr $(,)?) => { assert!($a == $b) }; ($a:expr, $b:expr, $($t:tt)+) => { assert!($a == $b) }; }\n')
+        # std::task::ready! re-stated over the prelude's Poll stub (same definition as core's)
+        self.emit('macro_rules! ready { ($e:expr $(,)?) => { match $e { Poll::Ready(t) => t, Poll::Pending => { return Poll::Pending; } } }; }\n')
         self.emit('verus! {\n')
         self.emit('pub mod pre {\nuse vstd::prelude::*;\nuse std::collections::VecDeque;\n')
         bnames = []
